@@ -9,7 +9,8 @@ import time
 from . import verus, registry, overlay, kani
 from .unit import ROOT, REPO
 
-EVID = os.path.join(ROOT, "evidence")
+# runs against a scratch copy (VX_REPO set for mutation testing) must not overwrite the real evidence
+EVID = os.path.join(ROOT, "evidence") if os.path.realpath(REPO) == "/repo" else os.path.join(ROOT, "build", "evidence-scratch")
 VERSION_NOTE = "Verus 0.2026.09.13 (Z3), Kani 0.68 (CBMC 6.11)"
 
 
